@@ -9,7 +9,10 @@
      files_logical_eq_iff         two written files compare equal iff the contents are equal
      logical_eq_detects_single_edit   every single logical edit is detected
      written_files_strict_valid   the header of a written file is strictly valid
-     encode_with_layout_valid     file_valid of a written file whose gaps are multiples of 4
+     encode_with_layout_valid_partial   file_valid of a written file whose gaps are multiples of 4, provided
+                                  record packing applies to at most one record variable (packed_alone);
+     encode_with_layout_valid_refuted   without packed_alone the statement is false (bad_c: a zero-size second
+                                  record variable — excluded by the library — gets an unaligned begin)
    No model definition is modified; every statement is fully proved. *)
 From Pnc Require Import Base Header HeaderSpec Logical Proofs_Base Proofs_Lists Proofs_Header.
 Require Import Lia ZArith ZifyBool.
